@@ -506,7 +506,7 @@ fn exec_c19(case: &Case19, obs: &mut Obs) -> Result<(), Failure> {
     match case {
         Case19::Side(s) => crate::props::c19_side::exec_side(s),
         Case19::AtThreadExit { calls, order } => {
-            obs.count("env:calls-at-thread-exit");
+            obs.count("fault:env-calls-at-thread-exit");
             obs.steps += 3 * calls.len() as u64;
             let recorded: Vec<String> = calls.iter().map(perform).collect();
             let (c1, c2) = (calls.clone(), calls.clone());
